@@ -1,10 +1,11 @@
 (* MV.C06.Properties — property C06 ("parent and watchers learn of a termination exactly once") on the kernel model.
    Proved for every role table and every run: the last sentence of the property ("actors that did not watch and are not
-   the parent are not notified", C06_notified_only_if_entitled). PARTIAL for the counting clause ("exactly one"): concrete
-   executions of each case (parent that also watches, late watch of a terminating actor, watch of an address that never
-   existed, non-watchers); the universally quantified counting theorem is not proved — that clause is checked on every
-   run by the lockstep correspondence and the monitors C06:duplicate-notification / C06:missing-notification. *)
-From MV Require Import Lib.ListX Kernel.Model Kernel.Run Kernel.Lifecycle Kernel.Watch.
+   the parent are not notified", C06_notified_only_if_entitled), and the upper half of the counting clause ("exactly one":
+   never two — C06_no_duplicate_notice, a flow inequality over every kernel operation, Kernel/Notice.v). PARTIAL for the
+   lower half ("at least one"): concrete executions of each case (parent that also watches, late watch of a terminating
+   actor, watch of an address that never existed, non-watchers); that a notice is never lost is checked on every run by
+   the lockstep correspondence and the monitor C06:missing-notification. *)
+From MV Require Import Lib.ListX Kernel.Model Kernel.Run Kernel.Lifecycle Kernel.Watch Kernel.Notice.
 Open Scope Z_scope.
 
 Definition count_to (observer who : ref) (os : list (list obs)) : nat :=
@@ -19,6 +20,31 @@ Theorem C06_notified_only_if_entitled : forall roles ls s os l s' o x i w sn sd,
   In (OW x w) (concat os) \/ exists c ac, get s c = Some ac /\ a_tok ac = w /\ a_parent ac = x.
 Proof. exact notified_only_if_entitled. Qed.
 Print Assumptions C06_notified_only_if_entitled.
+
+Definition c06_roles_b : list role :=
+  [ {| victim := None; sup := [DStop]; rules := [ {| r_on := KL; r_n := -1; r_inst := -1; r_do := [ASpawn 1 1; AWatch 1; AWatch 9; AWatch 9] |} ] |};
+    {| victim := None; sup := []; rules := [] |} ].
+
+(* No duplicate. In every run from the freshly started system, for every pair of addresses x and (user address) w: the
+   number of times x handles OnTerminated(w) never exceeds the number of Watch requests x issued for w plus the number
+   of actor objects x created at address w. Every watch request and every parenthood is answered at most once: a parent
+   that also watches its child, the same watcher registered twice, a watch racing with the termination, a watch of an
+   address that no longer or never existed, unwatch and re-watch, restarts, re-creation under the same name — never a
+   second notice for the same entitlement.
+   n_handled x w = number of OH x _ (TTO w) _ _ in the trace, n_watch = number of OW x w, n_spawn = number of OSp x w. *)
+Theorem C06_no_duplicate_notice : forall roles ls s' os x w,
+  0 <= w -> krun roles kinit ls = Some (s', os) ->
+  (n_handled x w (concat os) <= n_watch x w (concat os) + n_spawn x w (concat os))%nat.
+Proof. exact no_duplicate_notice. Qed.
+Print Assumptions C06_no_duplicate_notice.
+
+(* the bound is attained: the parent 0 of 1 that also watches 1 (one spawn, one watch request while 1 is alive) handles
+   exactly one notice; two watch requests for the dead address 9 are answered once each *)
+Example C06_no_duplicate_tight :
+  let '(_, os) := play c06_roles_b kinit [LSpawn 0 0; LTerm 1 false; LShutdown false; LEnd] in
+  n_handled 0 1 (concat os) = 1%nat /\ n_watch 0 1 (concat os) = 1%nat /\ n_spawn 0 1 (concat os) = 1%nat /\
+  n_handled 0 9 (concat os) = 2%nat /\ n_watch 0 9 (concat os) = 2%nat /\ n_spawn 0 9 (concat os) = 0%nat.
+Proof. vm_compute. repeat split; reflexivity. Qed.
 
 (* the terminated actor's own steps never produce a notification to itself or anyone once it is Terminated *)
 Theorem C06_terminated_is_silent_partial : forall roles s u a s' o,
